@@ -57,6 +57,31 @@ def _mask_field(x):
     return None
 
 
+def _product_form(eng, mb, info, lid):
+    """(elem term, sat count arg, sig count arg) when the loop iterates enumerate(itertools.product(range(a), range(b)), 1)."""
+    it = info.get("iter", ("?",))
+    if not (it[0] == "call" and it[2] == ("builtin", "enumerate") and len(it[3]) in (1, 2) and not it[4]):
+        return None
+    start = it[3][1] if len(it[3]) == 2 else ("const", 0)
+    if not (is_const(start) and isinstance(start[1], int)):
+        return None
+    p = it[3][0]
+    if not (p[0] == "call" and p[2][0] == "extern" and len(p[3]) == 2 and not p[4]):
+        return None
+    # the extern name must be itertools.product
+    name = p[2][1]
+    tree = eng.repo.modules[mb.module].tree
+    okimp = any(isinstance(n, ast.ImportFrom) and n.module == "itertools" and any((a.asname or a.name) == name and a.name == "product" for a in n.names) for n in tree.body)
+    if not okimp:
+        return None
+    args = []
+    for r in p[3]:
+        if not (r[0] == "call" and r[2] == ("builtin", "range") and len(r[3]) == 1):
+            return None
+        args.append(r[3][0])
+    return ("elem", it, lid), args[0], args[1], start[1]
+
+
 def run(eng, ctx):
     T = eng.tables
     orc = oracle("msm_labels.json")
@@ -86,18 +111,60 @@ def run(eng, ctx):
     sat_field = dc.get(T.const.get("NSAT", "NSat"))
     sig_field = dc.get(T.const.get("NSIG", "NSig"))
     cell_field = dc.get(T.const.get("NCELL", "NCell"))
-    counters = {}  # field -> name of the local counting the set bits
+    # ---- per scan: the container filled once per set bit, the ordinal of the current set bit, the count after the loop
+    def is_len_of(t, inner):
+        return t[0] == "call" and t[2] == ("builtin", "len") and len(t[3]) == 1 and t[3][0] == inner
+
+    model = {}  # field -> dict(lid, counter, cont, kind, inserts, ordinals(set of terms), counts(set of terms), cont_out)
     for fld, sc in scans.items():
         lid = sc["loop"][-1]
         info = loops.get(lid, {})
         be = info.get("body_end") or {}
+        m = {"lid": lid, "counter": None, "cont": None, "kind": None, "inserts": [], "ordinals": set(), "counts": set(), "cont_out": None, "bad_counter": None}
         for var, term in be.items():
-            if term[0] == "ite" and term[1] == sc["test"] and term[2] == ("bin", "+", ("loop", lid, var), ("const", 1)) and term[3] == ("loop", lid, var):
-                pre = info["pre"].get(var)
-                # the counter of a nested scan starts before the outermost loop
-                outer = loops.get(sc["loop"][0], {})
-                pre0 = outer.get("pre", {}).get(var) if len(sc["loop"]) > 1 else pre
-                counters[fld] = (var, pre0)
+            if term[0] == "ite" and term[1] == sc["test"] and term[3] == ("loop", lid, var) and term[2] != term[3] and var in info.get("assigned", ()):
+                if term[2] == ("bin", "+", ("loop", lid, var), ("const", 1)):
+                    outer = loops.get(sc["loop"][0], {})
+                    pre0 = (outer.get("pre", {}) if len(sc["loop"]) > 1 else info.get("pre", {})).get(var)
+                    m["counter"] = (var, pre0)
+                    if pre0 == ("const", 0):
+                        m["ordinals"].add(("bin", "+", ("loop", lid, var), ("const", 1)))
+                        m["counts"].add(("loopout", sc["loop"][0], var))
+                elif term[2][0] == "bin" and term[2][2] == ("loop", lid, var) and is_const(term[2][3]):
+                    m["bad_counter"] = (var, term)
+        # container: one dict item store or one list append under the bit test, on a loop-carried object that starts empty
+        for e in sc["effects"]:
+            if e.kind == "setitem" and e.target[0] == "item" and e.target[1][0] == "loop" and e.target[1][1] == lid:
+                m["inserts"].append(("dict", e.target[1][2], e))
+            elif e.kind == "call" and e.term[2][0] == "attr" and e.term[2][2] == "append" and e.term[2][1][0] == "loop" and e.term[2][1][1] == lid:
+                m["inserts"].append(("list", e.term[2][1][2], e))
+        if len(m["inserts"]) == 1:
+            kind, cname, e = m["inserts"][0]
+            outer_lid = sc["loop"][0]
+            pre = (loops.get(outer_lid, {}).get("pre", {})).get(cname)
+            fresh = pre is not None and pre[0] in ("dict", "list") and not pre[1]
+            others = [x for x in se.effects if x is not e and ((x.kind == "setitem" and x.target[0] == "item" and x.target[1][0] in ("loop", "loopout") and x.target[1][2] == cname)
+                                                                   or (x.kind == "call" and x.term[2][0] == "attr" and x.term[2][2] in ("append", "extend", "insert", "pop", "clear", "update", "setdefault", "remove") and x.term[2][1][0] in ("loop", "loopout") and x.term[2][1][2] == cname and x.term[2][2] != "append"))]
+            if fresh and not others:
+                m["cont"], m["kind"] = cname, kind
+                m["cont_out"] = ("loopout", outer_lid, cname)
+                m["counts"].add(("lenof", ("loopout", outer_lid, cname)))
+                m["ordinals"].add(("lenplus1", ("loop", lid, cname)))
+        model[fld] = m
+
+    def is_ordinal(t, m):
+        if t in m["ordinals"]:
+            return True
+        if t[0] == "bin" and t[1] == "+" and t[3] == ("const", 1) and t[2][0] == "call" and t[2][2] == ("builtin", "len") and len(t[2][3]) == 1:
+            return ("lenplus1", t[2][3][0]) in m["ordinals"]
+        return False
+
+    def is_count(t, m):
+        if t in m["counts"]:
+            return True
+        return t[0] == "call" and t[2] == ("builtin", "len") and len(t[3]) == 1 and ("lenof", t[3][0]) in m["counts"]
+
+    counters = {fld: m["counter"] for fld, m in model.items() if m["counter"]}
     for fld in (sat_field, sig_field):
         loc = eng.loc(mb, mb.node)
         if fld not in scans:
@@ -136,49 +203,75 @@ def run(eng, ctx):
             K = to_poly(k, sym)
             ok = K is not None and (K + E) == Poly.const(W)
             ctx.check(ok, "C09.D2", mb.qualname, f"label key in scan of {fld}", expected=f"ID = {W} - position = {Poly.const(W) - E!r}", found=repr(K) if K is not None else show(k), **eng.loc(mb, e.node))
-        # ordinal bookkeeping
-        cv = counters.get(fld)
-        if cv is None:
-            # is there a local that changes exactly under the bit test but not by +1?  then the bookkeeping is wrong; otherwise the
-            # scan keeps its ordinals some other way (e.g. len(map) + 1), which this rule cannot follow
-            cands = [(v, t) for v, t in (info.get("body_end") or {}).items() if t[0] == "ite" and t[1] == sc["test"] and t[3] == ("loop", lid, v) and t[2] != t[3] and v in info["assigned"]]
-            wrong = [(v, t) for v, t in cands if t[2][0] == "bin" and t[2][2] == ("loop", lid, v) and is_const(t[2][3])]
-            if wrong:
-                ctx.bad("C09.D2", mb.qualname, f"counter of {fld} scan", expected="incremented by 1 exactly when the bit is set", found=f"{wrong[0][0]}: {show(wrong[0][1][2])[:60]}", **loc)
-            else:
-                ctx.undecided("C09.D2", mb.qualname, f"counter of {fld} scan", detail="no local ordinal counter found: the scan's bookkeeping has a shape this rule does not follow", **loc)
+        # ordinal bookkeeping: a 0-based local incremented exactly under the bit test, or the size of a container that starts empty and receives
+        # exactly one element per set bit
+        m = model[fld]
+        if m["bad_counter"]:
+            ctx.bad("C09.D2", mb.qualname, f"counter of {fld} scan", expected="incremented by 1 exactly when the bit is set", found=f"{m['bad_counter'][0]}: {show(m['bad_counter'][1][2])[:60]}", **loc)
+        elif m["counter"] is not None:
+            ctx.check(m["counter"][1] == ("const", 0), "C09.D2", mb.qualname, f"counter of {fld} scan", expected="a local starting at 0, incremented by 1 exactly when the bit is set",
+                      found=str((m["counter"][0], show(m["counter"][1]) if m["counter"][1] else None)), **loc)
+        elif m["cont"] is not None:
+            ctx.ok("C09.D2", mb.qualname, f"counter of {fld} scan", found=f"ordinals kept as the size of `{m['cont']}` (starts empty, one insert per set bit)", **loc)
         else:
-            ctx.check(cv[1] == ("const", 0), "C09.D2", mb.qualname, f"counter of {fld} scan", expected="a local starting at 0, incremented by 1 exactly when the bit is set",
-                      found=str((cv[0], show(cv[1]) if cv[1] else None)), **loc)
+            ctx.undecided("C09.D2", mb.qualname, f"counter of {fld} scan", detail="neither a local ordinal counter nor a container filled once per set bit was found: the scan's bookkeeping has a shape this rule does not follow", **loc)
     # satellite map keys 1-based, signal list 0-based
-    if sat_field in scans and sat_field in counters:
-        var = counters[sat_field][0]
-        lid = scans[sat_field]["loop"][-1]
-        sets = [e for e in scans[sat_field]["effects"] if e.kind == "setitem"]
-        ok = len(sets) == 1 and sets[0].target[2] == ("bin", "+", ("loop", lid, var), ("const", 1))
-        ctx.check(ok, "C09.D2", mb.qualname, "satellite map key", expected="ordinal after increment (1-based)", found=show(sets[0].target[2]) if sets else "no store", **eng.loc(mb, (sets or scans[sat_field]["effects"])[0].node))
+    if sat_field in scans:
+        m = model[sat_field]
+        sets = [e for k_, c_, e in m["inserts"] if k_ == "dict"]
+        ok = len(sets) == 1 and len(m["inserts"]) == 1 and is_ordinal(sets[0].target[2], m)
+        if sets or m["ordinals"]:
+            ctx.check(ok, "C09.D2", mb.qualname, "satellite map key", expected="ordinal of the set bit, counted from 1", found=show(sets[0].target[2])[:60] if sets else "no store", **eng.loc(mb, (sets or scans[sat_field]["effects"])[0].node))
     if sig_field in scans:
         apps = [e for e in scans[sig_field]["effects"] if e.kind == "call" and e.term[2][0] == "attr" and e.term[2][2] == "append"]
         ctx.check(len(apps) == 1, "C09.D2", mb.qualname, "signal labels appended in scan order", expected="one append under the bit test", found=f"{len(apps)} append(s)", **eng.loc(mb, (apps or scans[sig_field]["effects"])[0].node))
     # cell scan
-    if cell_field in scans and sat_field in counters and sig_field in counters:
+    if cell_field in scans and sat_field in model and sig_field in model and (model[sat_field]["counts"] and model[sig_field]["counts"]):
         sc = scans[cell_field]
+        msat, msig, mcell = model[sat_field], model[sig_field], model[cell_field]
         loc = eng.loc(mb, loops[sc["loop"][-1]]["node"])
-        if len(sc["loop"]) != 2:
-            ctx.bad("C09.D2", mb.qualname, "cell scan nesting", expected="two nested loops (satellite outer, signal inner)", found=f"{len(sc['loop'])} loop level(s)", **loc)
+        prod = _product_form(eng, mb, loops[sc["loop"][-1]], sc["loop"][-1]) if len(sc["loop"]) == 1 else None
+        if prod is not None:
+            # single loop over enumerate(itertools.product(range(<sat count>), range(<sig count>)), 1): row-major pairs with their 1-based ordinal
+            elem, a_s, a_g, start = prod
+            okd = is_count(a_s, msat) and is_count(a_g, msig)
+            ctx.check(okd, "C09.D2", mb.qualname, "cell scan is satellite-major", expected="product(range(<satellite count>), range(<signal count>)): satellites vary slowest", found=f"product(range({show(a_s)[:40]}), range({show(a_g)[:40]}))", **loc)
+            o_t, s_t, g_t = ("proj", elem, 0), ("proj", ("proj", elem, 1), 0), ("proj", ("proj", elem, 1), 1)
+            symc = lambda t: "o" if t == o_t else ("NS" if is_count(t, msat) else ("NG" if is_count(t, msig) else show(t)))  # noqa: E731
+            E = to_poly(sc["E"], symc)
+            # the pair with enumerate value o is the (o - start + 1)-th pair: its mask bit is NSat*NSig - (o - start + 1)
+            ctx.check(E is not None and E == Poly.sym("NS") * Poly.sym("NG") - Poly.sym("o") + (start - 1), "C09.D2", mb.qualname, "cell bit position", expected=f"NSat*NSig - (o - {start} + 1) for enumerate(..., {start})", found=repr(E) if E is not None else show(sc["E"])[:80], **loc)
+            sets = [e for k_, c_, e in mcell["inserts"] if k_ == "dict"]
+            ctx.check(len(sets) == 1 and is_ordinal(sets[0].target[2], mcell), "C09.D2", mb.qualname, "cell map key", expected="ordinal of the set bit, counted from 1", found=show(sets[0].target[2])[:60] if sets else "no store", **loc)
+            if sets and msat["cont_out"] is not None and msig["cont_out"] is not None:
+                want_v = ("tuple", (("idx", msat["cont_out"], ("bin", "+", s_t, ("const", 1))), ("idx", msig["cont_out"], g_t)))
+                ctx.check(sets[0].term == want_v, "C09.D2", mb.qualname, "cell label", expected="(satmap[sat + 1], sigs[sig]) for the pair (sat, sig)", found=show(sets[0].term)[:140], **eng.loc(mb, sets[0].node))
+        elif len(sc["loop"]) != 2:
+            ctx.undecided("C09.D2", mb.qualname, "cell scan nesting", detail=f"expected two nested loops (satellite outer, signal inner), found {len(sc['loop'])} loop level(s): an iteration shape this rule does not follow", **loc)
         else:
             lo, li = sc["loop"]
             io, ii = loops[lo], loops[li]
-            satc = ("loopout", scans[sat_field]["loop"][-1], counters[sat_field][0])
-            sigc = ("loopout", scans[sig_field]["loop"][-1], counters[sig_field][0])
+            elem_o, elem_i = ("elem", io.get("iter"), lo), ("elem", ii.get("iter"), li)
 
-            def rng_bound(it):
-                return it[3][0] if it[0] == "call" and it[2] == ("builtin", "range") and len(it[3]) == 1 else None
+            def rng_args(it):
+                return it[3] if it[0] == "call" and it[2] == ("builtin", "range") else None
 
-            ctx.check(rng_bound(io.get("iter", ("?",))) == satc and rng_bound(ii.get("iter", ("?",))) == sigc, "C09.D2", mb.qualname, "cell scan is satellite-major",
-                      expected="outer loop over range(<satellite count>), inner over range(<signal count>)",
+            # outer domain: range(<sat count>) -> 0-based position; range(1, <sat count> + 1) -> the ordinal itself
+            oa, sat_key = rng_args(io.get("iter", ("?",))), None
+            if oa is not None and len(oa) == 1 and is_count(oa[0], msat):
+                sat_key = ("bin", "+", elem_o, ("const", 1))
+            elif oa is not None and len(oa) == 2 and oa[0] == ("const", 1) and oa[1][0] == "bin" and oa[1][1] == "+" and oa[1][3] == ("const", 1) and is_count(oa[1][2], msat):
+                sat_key = elem_o
+            # inner domain: range(<sig count>) -> index into the label list; the label list itself -> its elements in order
+            ia, sig_val = rng_args(ii.get("iter", ("?",))), None
+            if ia is not None and len(ia) == 1 and is_count(ia[0], msig) and msig["cont_out"]:
+                sig_val = ("idx", msig["cont_out"], elem_i)
+            elif msig["cont_out"] is not None and ii.get("iter") == msig["cont_out"]:
+                sig_val = elem_i
+            ctx.check(sat_key is not None and sig_val is not None, "C09.D2", mb.qualname, "cell scan is satellite-major",
+                      expected="outer loop over the satellites in ordinal order, inner loop over the signals in scan order",
                       found=f"outer {show(io.get('iter', ('?',)))[:60]}, inner {show(ii.get('iter', ('?',)))[:60]}", **loc)
-            # ordinal: local starting at 0 before the outer loop, += 1 unconditionally per inner iteration, untouched elsewhere
+            # ordinal: local starting at 0 before the loops, += 1 unconditionally per inner iteration, untouched elsewhere
             ordv = None
             be = ii.get("body_end") or {}
             for var, term in be.items():
@@ -188,20 +281,30 @@ def run(eng, ctx):
             ctx.check(good_ord, "C09.D2", mb.qualname, "cell ordinal", expected="local = 0 before the loops, += 1 once per inner iteration, not modified elsewhere",
                       found=f"{ordv}: pre={show(io['pre'].get(ordv, ('?',))) if ordv else '-'}", **loc)
             if ordv:
-                sym = lambda t: "o" if t == ("loop", li, ordv) else ("NS" if t == satc else ("NG" if t == sigc else show(t)))  # noqa: E731
-                E = to_poly(sc["E"], sym)
+                def symc(t):
+                    if t == ("loop", li, ordv):
+                        return "o"
+                    if is_count(t, msat):
+                        return "NS"
+                    if is_count(t, msig):
+                        return "NG"
+                    return show(t)
+
+                E = to_poly(sc["E"], symc)
                 want = Poly.sym("NS") * Poly.sym("NG") - Poly.sym("o") - 1
                 ctx.check(E is not None and E == want, "C09.D2", mb.qualname, "cell bit position", expected="NSat*NSig - ordinal (ordinal counted from 1)", found=repr(E) if E is not None else show(sc["E"])[:80], **loc)
-            sets = [e for e in sc["effects"] if e.kind == "setitem"]
-            cv = counters.get(cell_field)
-            okk = len(sets) == 1 and cv is not None and sets[0].target[2] == ("bin", "+", ("loop", li, cv[0]), ("const", 1)) and cv[1] == ("const", 0)
-            ctx.check(okk, "C09.D2", mb.qualname, "cell map key", expected="ordinal of the set bit after increment (1-based), counter starting at 0", found=show(sets[0].target[2]) if sets else "no store", **loc)
-            if sets:
+            sets = [e for k_, c_, e in mcell["inserts"] if k_ == "dict"]
+            okk = len(sets) == 1 and is_ordinal(sets[0].target[2], mcell)
+            ctx.check(okk, "C09.D2", mb.qualname, "cell map key", expected="ordinal of the set bit, counted from 1", found=show(sets[0].target[2])[:60] if sets else "no store", **loc)
+            if sets and sat_key is not None and sig_val is not None and msat["cont_out"] is not None:
                 v = sets[0].term
-                elem_o, elem_i = ("elem", io.get("iter"), lo), ("elem", ii.get("iter"), li)
-                good = (v[0] == "tuple" and len(v[1]) == 2 and v[1][0][0] == "idx" and v[1][0][2] == ("bin", "+", elem_o, ("const", 1))
-                        and v[1][1][0] == "idx" and v[1][1][2] == elem_i and v[1][1][1][0] in ("loopout", "loop") and v[1][1][1][2] != v[1][0][1][2:3])
-                ctx.check(good, "C09.D2", mb.qualname, "cell label", expected="(satmap[sat + 1], sigs[sig]) with sat = outer index, sig = inner index", found=show(v)[:140], **eng.loc(mb, sets[0].node))
+                want_v = ("tuple", (("idx", msat["cont_out"], sat_key), sig_val))
+                alt = None
+                if msat["cont_out"][2].startswith("self."):  # the map read back through the instance field
+                    alt = ("tuple", (("idx", ("field", msat["cont_out"][2][5:]), sat_key), sig_val))
+                ctx.check(v == want_v or v == alt, "C09.D2", mb.qualname, "cell label", expected="(label of the outer loop's satellite, label of the inner loop's signal)", found=show(v)[:140], **eng.loc(mb, sets[0].node))
+    elif cell_field in scans:
+        ctx.undecided("C09.D2", mb.qualname, "cell scan", detail="the satellite / signal counts the cell scan depends on were not identified", **eng.loc(mb, mb.node))
     # consumers in the single-field routine: 1-based index from the group loop
     sf = eng.repo.func(eng.single_field_routine)
     ssf = eng.symeval(sf.qualname)
